@@ -346,3 +346,658 @@ class World:
         if soft:
             return None
         raise Unsupported(f"effects_ir: cannot resolve {'.'.join(rest)} in module {m.name}")
+
+
+# ----------------------------------------------------------------------------- per-function translation
+def own_stmts(fnode):
+    """all statements/expressions of a function excluding nested function bodies"""
+    stack = list(fnode.body)
+    while stack:
+        n = stack.pop()
+        yield n
+        for c in ast.iter_child_nodes(n):
+            if isinstance(c, (ast.FunctionDef, ast.Lambda, ast.ClassDef)):
+                if isinstance(c, ast.FunctionDef):
+                    yield c          # the def itself (its name is a local), not its body
+                continue
+            stack.append(c)
+
+
+def local_names(f):
+    """params + every name stored in the function body (comprehension targets excluded) + nested def names"""
+    out = set(f.params + f.kwonly + ([f.vararg] if f.vararg else []) + ([f.kwarg] if f.kwarg else []))
+    comp_targets = set()
+    for n in own_stmts(f.node):
+        if isinstance(n, ast.comprehension):
+            for t in ast.walk(n.target):
+                if isinstance(t, ast.Name):
+                    comp_targets.add(id(t))
+    for n in own_stmts(f.node):
+        if isinstance(n, ast.Name) and isinstance(n.ctx, ast.Store) and id(n) not in comp_targets:
+            out.add(n.id)
+        elif isinstance(n, ast.FunctionDef):
+            out.add(n.name)
+        elif isinstance(n, (ast.Global, ast.Nonlocal)):
+            fail(n, "global/nonlocal", f.qual)
+    return out
+
+
+def compute_captures(world):
+    loc = {f.qual: local_names(f) for f in world.funcs}
+    def ancestors(f):
+        while f.parent is not None:
+            f = f.parent
+            yield f
+    def visible_def(f, name):
+        g = f
+        while g is not None:
+            if name in g.nested:
+                return g.nested[name]
+            g = g.parent
+        return None
+    changed = True
+    for f in world.funcs:
+        f._loc = loc[f.qual]
+    while changed:
+        changed = False
+        for f in world.funcs:
+            if f.parent is None:
+                continue
+            caps = list(f.captures)
+            names = [n.id for n in ast.walk(f.node) if isinstance(n, ast.Name)]
+            inner_locals = set()
+            for g in world.funcs:
+                if g is not f and g.qual.startswith(f.qual + "."):
+                    inner_locals |= loc[g.qual]
+            for nm in names:
+                if nm in loc[f.qual]:
+                    continue
+                d = visible_def(f, nm)
+                if d is not None and nm not in f.nested:
+                    for c in d.captures:
+                        if c not in caps and c not in loc[f.qual]:
+                            caps.append(c)
+                    continue
+                if nm in inner_locals:
+                    continue
+                if any(nm in loc[a.qual] and nm not in a.nested for a in ancestors(f)) and nm not in caps:
+                    caps.append(nm)
+            # own nested defs' captures that are not our locals must be passed through
+            for g in f.nested.values():
+                for c in g.captures:
+                    if c not in loc[f.qual] and c not in caps:
+                        caps.append(c)
+            if caps != f.captures:
+                f.captures = caps
+                changed = True
+
+
+def is_const_default(d):
+    if isinstance(d, ast.Constant):
+        return True
+    if isinstance(d, ast.UnaryOp) and isinstance(d.operand, ast.Constant):
+        return True
+    if isinstance(d, ast.Tuple):
+        return all(is_const_default(x) for x in d.elts)
+    return False
+
+
+class FT:
+    def __init__(self, world, f):
+        self.w, self.f, self.m = world, f, f.module
+        self.names = {}
+        self.nvars = NRET
+        self.varnames = ["$ret%d" % i for i in range(NRET)]
+        self.GLOB = self.newvar("$glob")
+        for p in f.all_params():
+            self.names[p] = self.newvar(p)
+        self.nparams = self.nvars - NRET
+        self.scopes = []          # comprehension scopes: list of dict name -> var
+        self.blocks = [[]]
+        self.locals = f._loc
+        self.in_once_guard = []   # (class name, attr) of enclosing `if not hasattr(C, "a")`
+        # return-slot layout
+        rets = [n for n in own_stmts(f.node) if isinstance(n, ast.Return) and n.value is not None]
+        lens = set(len(r.value.elts) if isinstance(r.value, ast.Tuple) and not any(isinstance(e, ast.Starred) for e in r.value.elts) else -1 for r in rets)
+        self.ret_len = lens.pop() if len(lens) == 1 else -1
+        if self.ret_len > NRET - 1 or self.ret_len < 2:
+            self.ret_len = -1
+        f.ret_len = self.ret_len
+        # assignments per name (for the scalar / array index classification)
+        self.assigned = {}
+        for p in f.all_params():
+            self.assigned.setdefault(p, []).append(("unknown",))
+        for n in own_stmts(f.node):
+            if isinstance(n, ast.Assign):
+                for t in n.targets:
+                    self.note_assign(t, n.value)
+            elif isinstance(n, ast.AnnAssign) and n.value is not None:
+                self.note_assign(n.target, n.value)
+            elif isinstance(n, (ast.For, ast.comprehension)):
+                self.note_iter(n.target, n.iter)
+            elif isinstance(n, ast.withitem) and n.optional_vars is not None:
+                for t in ast.walk(n.optional_vars):
+                    if isinstance(t, ast.Name):
+                        self.assigned.setdefault(t.id, []).append(("unknown",))
+
+    # ---- variables
+    def newvar(self, label):
+        v = self.nvars
+        self.nvars += 1
+        self.varnames.append(label)
+        return v
+
+    def var(self, name):
+        for sc in reversed(self.scopes):
+            if name in sc:
+                return sc[name]
+        if name not in self.names:
+            self.names[name] = self.newvar(name)
+        return self.names[name]
+
+    def emit(self, s):
+        self.blocks[-1].append(s)
+
+    def bind(self, x, d):
+        self.emit(("bind", x, d))
+
+    def tmp(self, d, label="$t"):
+        """a variable holding d (reuses the variable when d is exactly one alias)"""
+        if not d.fr and len(d.oo) == 1 and not d.orr and not d.rr:
+            return next(iter(d.oo))
+        t = self.newvar(label)
+        self.bind(t, d)
+        return t
+
+    def note(self, s):
+        s = f"{self.f.short()}: {s}"
+        if s not in self.w.notes:
+            self.w.notes.append(s)
+
+    # ---- kinds (only used to decide basic vs advanced indexing and scalar augmented assignment)
+    def note_assign(self, t, v):
+        if isinstance(t, ast.Name):
+            self.assigned.setdefault(t.id, []).append(("expr", v))
+        elif isinstance(t, (ast.Tuple, ast.List)):
+            if isinstance(v, (ast.Tuple, ast.List)) and len(v.elts) == len(t.elts) and not any(isinstance(e, ast.Starred) for e in t.elts + v.elts):
+                for a, b in zip(t.elts, v.elts):
+                    self.note_assign(a, b)
+            else:
+                for n in ast.walk(t):
+                    if isinstance(n, ast.Name):
+                        self.assigned.setdefault(n.id, []).append(("unknown",))
+
+    def note_iter(self, t, it):
+        fn = it.func.id if isinstance(it, ast.Call) and isinstance(it.func, ast.Name) else None
+        if isinstance(t, ast.Name):
+            self.assigned.setdefault(t.id, []).append(("scalar",) if fn == "range" else ("unknown",))
+            return
+        first = True
+        for e in (t.elts if isinstance(t, (ast.Tuple, ast.List)) else [t]):
+            for n in ast.walk(e):
+                if isinstance(n, ast.Name):
+                    self.assigned.setdefault(n.id, []).append(("scalar",) if (fn == "enumerate" and first and isinstance(e, ast.Name)) else ("unknown",))
+            first = False
+
+    def kind(self, e, depth=0):
+        """'scalar' | 'slice' | 'array' | 'array2' | 'unknown'"""
+        if depth > 6:
+            return "unknown"
+        if isinstance(e, ast.Constant):
+            if e.value is None or e.value is Ellipsis:
+                return "slice"
+            return "scalar" if isinstance(e.value, (int, float, bool)) else "unknown"
+        if isinstance(e, ast.Slice):
+            return "slice"
+        if isinstance(e, (ast.List, ast.ListComp)):
+            return "array"
+        if isinstance(e, ast.Tuple):
+            ks = [self.kind(x, depth + 1) for x in e.elts]
+            if any(k in ("array", "array2") for k in ks):
+                return "array"
+            return "slice" if all(k in ("scalar", "slice") for k in ks) else "unknown"
+        if isinstance(e, ast.Name):
+            if e.id not in self.locals and not any(e.id in sc for sc in self.scopes):
+                return "unknown"
+            ks = set()
+            for a in self.assigned.get(e.id, [("unknown",)]):
+                ks.add(a[0] if a[0] != "expr" else self.kind(a[1], depth + 1))
+            if ks <= {"array", "array2"} and ks:
+                return "array2" if ks == {"array2"} else "array"
+            return ks.pop() if len(ks) == 1 else "unknown"
+        if isinstance(e, ast.Attribute):
+            if e.attr in ATTR_ARRAY2 and not self.dotted(e):
+                return "array2"
+            if e.attr in ATTR_SCALAR:
+                return "scalar"
+            if e.attr == "newaxis":
+                return "slice"
+            return "unknown"
+        if isinstance(e, ast.Subscript):
+            b, i = self.kind(e.value, depth + 1), self.kind(e.slice, depth + 1)
+            if isinstance(e.value, ast.Attribute) and e.value.attr == "shape":
+                return "scalar"
+            if b == "array2" and not isinstance(e.slice, ast.Tuple):
+                return "array"          # one index on a 2-d array leaves >= 1 dimension
+            if b in ("array", "array2") and i in ("array", "array2"):
+                return "array"
+            if b in ("array", "array2") and isinstance(e.slice, ast.Slice):
+                return "array"
+            return "unknown"
+        if isinstance(e, ast.UnaryOp):
+            return self.kind(e.operand, depth + 1) if self.kind(e.operand, depth + 1) in ("scalar", "array", "array2") else "unknown"
+        if isinstance(e, (ast.BinOp, ast.Compare, ast.BoolOp)):
+            ops = ([e.left, e.right] if isinstance(e, ast.BinOp) else [e.left] + e.comparators if isinstance(e, ast.Compare) else e.values)
+            ks = [self.kind(x, depth + 1) for x in ops]
+            if any(k in ("array", "array2") for k in ks) and not isinstance(e, ast.BoolOp):
+                return "array"
+            return "scalar" if all(k == "scalar" for k in ks) else "unknown"
+        if isinstance(e, ast.Call):
+            d = self.dotted(e.func)
+            if d and d[0] == "ext":
+                if d[1] in ARRAY_RESULT:
+                    return "array"
+                if d[1] in SCALAR_FUNCS:
+                    return "scalar"
+            if d is None and isinstance(e.func, ast.Attribute) and e.func.attr in ARRAY_METHODS and self.kind(e.func.value, depth + 1) in ("array", "array2"):
+                return "array"
+            return "unknown"
+        return "unknown"
+
+    # ---- name resolution
+    def find_def(self, name):
+        g = self.f
+        while g is not None:
+            if name in g.nested:
+                return g.nested[name]
+            g = g.parent
+        return None
+
+    def is_local(self, name):
+        if any(name in sc for sc in self.scopes):
+            return True
+        return name in self.locals or name in self.f.captures
+
+    def dotted(self, e):
+        """static target of a (dotted) name used as callee / module attribute, or None when the root
+        is a run-time value.  ('func',FuncInfo) ('nested',FuncInfo) ('class',m,name,rest) ('global',m,name)
+        ('ext',dotted) ('module',m)"""
+        parts = []
+        while isinstance(e, ast.Attribute):
+            parts.append(e.attr)
+            e = e.value
+        if not isinstance(e, ast.Name):
+            return None
+        parts.append(e.id)
+        parts.reverse()
+        root = parts[0]
+        if self.is_local(root):
+            d = self.find_def(root)
+            if d is not None and len(parts) == 1 and not any(root in sc for sc in self.scopes):
+                # a nested def name that is not rebound as data
+                if all(a[0] == "unknown" for a in self.assigned.get(root, [])) and root not in self.f.all_params():
+                    return ("nested", d)
+            return None
+        d = self.find_def(root)
+        if d is not None and len(parts) == 1:
+            return ("nested", d)
+        m = self.m
+        if root in m.funcs or root in m.classes or root in m.globals or root in m.imports:
+            r = self.w.resolve_in_module(m, parts)
+            if r[0] == "global":
+                return ("global", r[1], r[2]) if len(parts) == 1 else None
+            return r
+        if root in BUILTINS and len(parts) == 1:
+            return ("ext", root)
+        fail(e, f"unknown name {root}", self.f.qual)
+
+    def funcvalue(self, g, node):
+        """a koala function used as a first-class value: it must itself be effect-free on everything
+        it is given (checked by koala_pure with every formal tainted); value = box of its captures"""
+        self.w.escaping.add(g.qual)
+        return box([alias(self.var(c)) for c in g.captures]) if g.captures else CONST
+
+    # ---- expressions
+    def ex(self, e):
+        m = getattr(self, "ex_" + type(e).__name__, None)
+        if m is None:
+            fail(e, "expression " + type(e).__name__, self.f.qual)
+        return m(e)
+
+    def ex_Constant(self, e):
+        return CONST
+
+    ex_JoinedStr = ex_Constant
+
+    def ex_Name(self, e):
+        if self.is_local(e.id):
+            d = self.dotted(e)
+            if d and d[0] == "nested":
+                return self.funcvalue(d[1], e)
+            return alias(self.var(e.id))
+        d = self.dotted(e)
+        if d[0] in ("nested", "func"):
+            return self.funcvalue(d[1], e)
+        if d[0] == "global":
+            return view(alias(self.GLOB))
+        if d[0] == "class":
+            return CONST
+        if d[0] == "ext":
+            k = EXT.get(d[1])
+            if k in ("constval", "const"):
+                return CONST
+            if d[1] in EXT or d[1] in EXT_WRITES:
+                return CONST        # an external function used as a value (np.unique passed to apply_along_axis)
+            fail(e, f"external name {d[1]} not in the table", self.f.qual)
+        fail(e, f"name {e.id}", self.f.qual)
+
+    def ex_Attribute(self, e):
+        d = self.dotted(e)
+        if d is not None:
+            if d[0] in ("func",):
+                return self.funcvalue(d[1], e)
+            if d[0] == "ext":
+                if EXT.get(d[1]) in ("constval", "const") or d[1] in EXT or d[1] in EXT_WRITES:
+                    return CONST
+                fail(e, f"external attribute {d[1]} not in the table", self.f.qual)
+            if d[0] == "class" and d[3]:
+                return view(alias(self.GLOB))      # class attribute: module state
+            if d[0] in ("class", "module"):
+                return CONST
+            fail(e, "attribute of " + str(d[0]), self.f.qual)
+        b = self.ex(e.value)
+        if e.attr in self.w.props:
+            bv = self.tmp(b, "$recv")
+            outs = [view(alias(bv))]
+            for g in self.w.props[e.attr]:
+                r = self.newvar("$prop")
+                self.emit(("call", [r], g.qual, [self.GLOB, bv]))
+                outs.append(alias(r))
+            return join(outs)
+        if e.attr in ATTR_CONST:
+            return CONST
+        return view(b)
+
+    def ex_index(self, s):
+        """evaluate the sub-expressions of an index for their effects; returns their values"""
+        if isinstance(s, ast.Slice):
+            return [self.ex(x) for x in (s.lower, s.upper, s.step) if x is not None]
+        if isinstance(s, ast.Tuple):
+            return [d for x in s.elts for d in self.ex_index(x)]
+        return [self.ex(s)]
+
+    def ex_Subscript(self, e):
+        b = self.ex(e.value)
+        self.ex_index(e.slice)
+        if self.kind(e.slice) in ("array", "array2"):
+            return box([b])         # advanced indexing: new buffer (elements of object arrays stay shared)
+        return view(b)
+
+    def ex_BinOp(self, e):
+        l, r = self.ex(e.left), self.ex(e.right)
+        if any(isinstance(x, (ast.List, ast.Tuple, ast.ListComp)) for x in (e.left, e.right)):
+            return box([l, r])      # list concatenation / repetition: new list, shared elements
+        return FRESH
+
+    def ex_UnaryOp(self, e):
+        self.ex(e.operand)
+        return CONST if isinstance(e.op, ast.Not) else FRESH
+
+    def ex_Compare(self, e):
+        self.ex(e.left)
+        for c in e.comparators:
+            self.ex(c)
+        return FRESH
+
+    def ex_BoolOp(self, e):
+        return join([self.ex(v) for v in e.values])
+
+    def ex_IfExp(self, e):
+        self.ex(e.test)
+        return join([self.ex(e.body), self.ex(e.orelse)])
+
+    def ex_List(self, e):
+        return box([view(self.ex(x.value)) if isinstance(x, ast.Starred) else self.ex(x) for x in e.elts])
+
+    ex_Tuple = ex_List
+    ex_Set = ex_List
+
+    def ex_Dict(self, e):
+        return box([self.ex(x) for x in list(e.keys) + list(e.values) if x is not None])
+
+    def comp(self, gens, elts):
+        acc = self.newvar("$comp")
+        self.bind(acc, FRESH)
+        self.scopes.append({})
+        def rec(i):
+            if i == len(gens):
+                ds = [self.ex(x) for x in elts]
+                self.bind(acc, extend(acc, ds))
+                return
+            g = gens[i]
+            if g.is_async:
+                fail(g, "async comprehension", self.f.qual)
+            it = self.ex(g.iter)
+            self.blocks.append([("skip",)])
+            self.bind_iter_target(g.target, g.iter, it, comp=True)
+            for c in g.ifs:
+                self.ex(c)
+            rec(i + 1)
+            body = self.blocks.pop()
+            self.emit(("loop", seq_keep(body)))
+        rec(0)
+        self.scopes.pop()
+        return alias(acc)
+
+    def ex_ListComp(self, e):
+        return self.comp(e.generators, [e.elt])
+
+    ex_SetComp = ex_ListComp
+    ex_GeneratorExp = ex_ListComp
+
+    def ex_DictComp(self, e):
+        return self.comp(e.generators, [e.key, e.value])
+
+
+def seq_keep(stmts):
+    """right-nested sequence that keeps a leading Skip (the 'zero statements executed' prefix)"""
+    return ("seq", [("skip",)] + [s for s in seq(stmts)[1]] if seq(stmts)[0] == "seq" else [("skip",), seq(stmts)])
+
+
+class FT2(FT):
+    # ---- calls
+    def call_args(self, e):
+        pos, kws, star, dstar = [], {}, [], []
+        for a in e.args:
+            if isinstance(a, ast.Starred):
+                star.append(view(self.ex(a.value)))
+            else:
+                pos.append(self.ex(a))
+        for k in e.keywords:
+            if k.arg is None:
+                dstar.append(view(self.ex(k.value)))
+            else:
+                kws[k.arg] = self.ex(k.value)
+        return pos, kws, star, dstar
+
+    def default_value(self, g, p):
+        d = g.defaults.get(p)
+        if d is None:
+            return None
+        if is_const_default(d):
+            return CONST
+        if isinstance(d, (ast.Name, ast.Attribute)):
+            # a default naming a koala function (heuristic=straight_line_length)
+            try:
+                sub = FT2.__new__(FT2)
+                sub.__dict__.update(self.__dict__)
+                sub.f, sub.m, sub.locals, sub.scopes = g, g.module, set(), []
+                r = sub.dotted(d)
+            except Unsupported:
+                r = None
+            if r and r[0] == "func":
+                self.w.escaping.add(r[1].qual)
+                return CONST
+        return view(alias(self.GLOB))     # object created at definition time: module state
+
+    def koala_call(self, g, pos, kws, star, dstar, node, nrets=1):
+        """emit Call to koala function g; returns the list of result variables"""
+        vals, extra_pos, extra_kw = {}, [], []
+        for i, d in enumerate(pos):
+            if i < len(g.params):
+                vals[g.params[i]] = d
+            elif g.vararg:
+                extra_pos.append(d)
+            else:
+                fail(node, f"too many positional arguments for {g.qual}", self.f.qual)
+        for k, d in kws.items():
+            if k in g.params or k in g.kwonly:
+                vals[k] = join([vals[k], d]) if k in vals else d
+            elif g.kwarg:
+                extra_kw.append(d)
+            else:
+                fail(node, f"unknown keyword {k} for {g.qual}", self.f.qual)
+        spread = star + dstar
+        args = [self.GLOB] + [self.var(c) for c in g.captures]
+        for p in g.params + g.kwonly:
+            d = vals.get(p)
+            if d is None:
+                d = self.default_value(g, p)
+                if d is None and not spread:
+                    fail(node, f"missing argument {p} for {g.qual}", self.f.qual)
+                d = join(([d] if d is not None else []) + spread)
+            elif spread and p not in kws and p in g.defaults:
+                pass
+            args.append(self.tmp(d, "$arg"))
+        if g.vararg:
+            args.append(self.tmp(box(extra_pos + star), "$varargs"))
+        if g.kwarg:
+            args.append(self.tmp(box(extra_kw + dstar), "$kwargs"))
+        rets = [self.newvar("$r") for _ in range(nrets)]
+        self.emit(("call", rets, g.qual, args))
+        return rets
+
+    def construct(self, m, cname, pos, kws, star, dstar, node):
+        ms = m.classes[cname]
+        if "__init__" in ms:
+            s = self.newvar("$self")
+            self.bind(s, FRESH)
+            r = self.koala_call(ms["__init__"], [alias(s)] + pos, kws, star, dstar, node)
+            return alias(r[0])
+        if cname in m.dataclasses:
+            return box(pos + list(kws.values()) + star + dstar)
+        return FRESH        # exception classes
+
+    def apply_callback(self, cb, elem_args, node):
+        """call callback expression cb (function value) on the given argument values"""
+        d = self.dotted(cb) if isinstance(cb, (ast.Name, ast.Attribute)) else None
+        if d and d[0] in ("func", "nested"):
+            r = self.koala_call(d[1], elem_args, {}, [], [], node)
+            return alias(r[0])
+        if d and d[0] == "ext":
+            k = EXT.get(d[1])
+            if d[1] in EXT_WRITES or k is None:
+                fail(node, f"callback {d[1]}", self.f.qual)
+            return FRESH if k in ("fresh", "const") else D(True, (), frozenset().union(*[x.srcs() for x in elem_args]) if elem_args else ())
+        # a run-time callable (parameter, bound method of a local): assumed effect-free (see funcvalue / TRUST)
+        c = self.ex(cb)
+        self.note(f"line {node.lineno}: call of a run-time callable `{ast.unparse(cb)[:40]}` treated as effect-free, result may alias its arguments")
+        return D(True, (), frozenset().union(c.srcs(), *[x.srcs() for x in elem_args]))
+
+    def ex_Call(self, e):
+        f = e.func
+        # np.vectorize(F)(args)
+        if isinstance(f, ast.Call):
+            d0 = self.dotted(f.func) if isinstance(f.func, (ast.Name, ast.Attribute)) else None
+            if d0 == ("ext", "numpy.vectorize") and len(f.args) == 1:
+                pos, kws, star, dstar = self.call_args(e)
+                self.apply_callback(f.args[0], [view(x) for x in pos], e)
+                return FRESH
+            fail(e, "call of a call result", self.f.qual)
+        d = self.dotted(f) if isinstance(f, (ast.Name, ast.Attribute)) else None
+        if d is None and isinstance(f, ast.Attribute):
+            return self.method_call(e)
+        if d is None:
+            pos, kws, star, dstar = self.call_args(e)
+            return self.apply_callback(f, pos + list(kws.values()) + star + dstar, e)
+        pos, kws, star, dstar = self.call_args(e)
+        if d[0] in ("func", "nested"):
+            return alias(self.koala_call(d[1], pos, kws, star, dstar, e)[0])
+        if d[0] == "class":
+            if d[3]:
+                fail(e, "call of class attribute", self.f.qual)
+            return self.construct(d[1], d[2], pos, kws, star, dstar, e)
+        if d[0] != "ext":
+            fail(e, "call of " + d[0], self.f.qual)
+        name = d[1]
+        allv = pos + list(kws.values()) + star + dstar
+        if name in EXT_WRITES:
+            w = EXT_WRITES[name]
+            tgt = kws.get(w) if isinstance(w, str) else (pos[w] if w < len(pos) else None)
+            if tgt is None:
+                fail(e, f"written argument of {name} not found", self.f.qual)
+            self.emit(("write", self.tmp(tgt, "$w")))
+            return FRESH
+        if name == "numpy.apply_along_axis":
+            if len(e.args) < 3 or any(isinstance(a, ast.Starred) for a in e.args[:3]):
+                fail(e, "apply_along_axis form", self.f.qual)
+            self.apply_callback(e.args[0], [view(pos[2])] + pos[3:], e)
+            return FRESH
+        if name == "numpy.vectorize":
+            cb = e.args[0]
+            dd = self.dotted(cb) if isinstance(cb, (ast.Name, ast.Attribute)) else None
+            if dd and dd[0] in ("func", "nested"):
+                return self.funcvalue(dd[1], e)
+            return box(allv)
+        if name == "numpy.array" and "dtype" in kws and isinstance([k for k in e.keywords if k.arg == "dtype"][0].value, ast.Name) \
+                and [k for k in e.keywords if k.arg == "dtype"][0].value.id == "object":
+            return box(allv)
+        k = EXT.get(name)
+        if k is None:
+            fail(e, f"external callable {name} not in the table", self.f.qual)
+        if k in ("fresh",):
+            return FRESH
+        if k in ("const", "constval"):
+            return CONST
+        if k == "view":
+            return union(allv)
+        if k == "box":
+            return box(allv)
+        fail(e, f"table class {k}", self.f.qual)
+
+    def method_call(self, e):
+        name = e.func.attr
+        recv = self.ex(e.func.value)
+        pos, kws, star, dstar = self.call_args(e)
+        allv = pos + list(kws.values()) + star + dstar
+        if name == "get":
+            if not allv:                       # Queue.get(): removes an element
+                self.emit(("write", self.tmp(recv, "$recv")))
+            return view(recv)
+        if name in M_WRITE:
+            x = self.tmp(recv, "$recv")
+            self.emit(("write", x))
+            if M_WRITE[name]:
+                self.bind(x, extend(x, allv))
+                root = self.root_name(e.func.value)
+                if root is not None and root != x:
+                    self.bind(root, extend(root, allv))
+            if name == "map" and e.args:
+                self.apply_callback(e.args[0], [view(a) for a in pos[1:]], e)
+            if name in M_WRITE_RESULT_VIEW:
+                return view(alias(x))
+            return box(allv) if M_WRITE[name] else FRESH
+        if name in M_VIEW:
+            return view(recv)
+        if name in M_CONST:
+            return CONST
+        if name in M_FRESH:
+            return box([recv]) if name in ("copy", "astype", "flatten", "tolist") else FRESH
+        fail(e, f"method .{name}() not in the table", self.f.qual)
+
+    def root_name(self, e):
+        while isinstance(e, (ast.Attribute, ast.Subscript)):
+            e = e.value
+        if isinstance(e, ast.Name) and self.is_local(e.id) and not (self.dotted(e) or (None,))[0] == "nested":
+            return self.var(e.id)
+        return None
